@@ -51,7 +51,7 @@ def s1_task(ctx, task):
     if getattr(mod, 'NEEDS_FILES', False):
         kernel.workdir()
     progs.closed_programs.stats = {'histories': 0, 'open': 0}
-    alpha = mod.alphabet(task['tier'])
+    alpha = s1_runs(mod, task['tier'])[task.get('run', 0)][0]
     for names, items in progs.closed_programs(alpha, task['depth'], ['A', 'B', 'C'], tuple(task['prefix'])):
         _one(ctx, asm, mod, items, 'S1')
     ctx.count('histories', progs.closed_programs.stats['histories'])
@@ -67,14 +67,23 @@ def s2_task(ctx, task):
         _one(ctx, asm, mod, items, 'S2')
 
 
+def s1_runs(mod, tier):
+    """[(alphabet, depth)]: the S1 history trees of a property; thorough adds a deeper tree over the quick alphabet"""
+    runs = [(mod.alphabet(tier), mod.depth(tier))]
+    if tier == 'thorough' and getattr(mod, 'DEEP', None):
+        runs.append((mod.alphabet('quick'), mod.DEEP))
+    return runs
+
+
 def run(mod, tier, seed, t0, assumptions):
     name = mod.__name__
     alpha = mod.alphabet(tier)
     depth = mod.depth(tier)
     m = kernel.Merged()
-    if alpha and depth:
-        tasks = [dict(t, tier=tier, mod=name) for t in progs.s1_tasks(alpha, depth, 2)]
-        m = kernel.explore(s1_task, tasks, merged=m)
+    for ri, (al, dp) in enumerate(s1_runs(mod, tier)):
+        if al and dp:
+            tasks = [dict(t, tier=tier, mod=name, run=ri) for t in progs.s1_tasks(al, dp, 2)]
+            m = kernel.explore(s1_task, tasks, merged=m)
     s2 = [dict(t, tier=tier, mod=name) for t in mod.s2_tasks(tier)]
     if s2:
         m = kernel.explore(s2_task, s2, merged=m)
@@ -84,6 +93,6 @@ def run(mod, tier, seed, t0, assumptions):
     cov = dict(states=n['programs'] + n['extra_states'], transitions=n['assemblies'] + n['extra_transitions'],
                traces_validated_against_impl=n['walked'] + n['extra_traces'],
                evaluations=n['assemblies'] + n['extra_transitions'], distinct_nontrivial=n['nontrivial'] + n['extra_nontrivial'],
-               rule=mod.RULE, exhaustive=True, depth=depth, alphabet=[s[0] for s in alpha], histories=n['histories'],
+               rule=mod.RULE, exhaustive=True, depth=depth, deep_tree_depth=(getattr(mod, 'DEEP', None) if tier == 'thorough' else None), alphabet=[s[0] for s in alpha], histories=n['histories'],
                open_histories=n['open_histories'], bound=mod.describe(tier), refused=n['refused'], s2_tasks=len(s2))
     return kernel.finish(mod.PROP, tier, seed, t0, m, cov, assumptions)
